@@ -156,7 +156,16 @@ theorem emb_as_bits (cc pv lc par : Nat) (ok : Option Bool) (h1 : cc < 16) (h2 :
   rw [if_pos (by omega), if_pos (by omega), if_pos (by omega), if_pos (by omega)]
   rfl
 
-theorem emb_init_eq (cc pi lc par : Nat) (hpar : par < 512) :
+theorem emb_as_bits_ovf (cc pv lc par : Nat) (ok : Option Bool) (h1 : cc < 16) (h2 : pv < 2) (h3 : lc < 4) (h4 : ¬ par < 512) :
+    EmbeddedSignalling.as_bits modelExt ⟨some (cc : Int), some (pv : Int), some (lc : Int), some (par : Int), ok⟩
+      = .error .overflow := by
+  unfold EmbeddedSignalling.as_bits
+  simp only [attr_some, ok_bind, pure_eq_ok, int2ba_lit _ _ (by decide : 0 < 4), int2ba_lit _ _ (by decide : 0 < 1),
+    int2ba_lit _ _ (by decide : 0 < 2), int2ba_lit _ _ (by decide : 0 < 9)]
+  rw [if_pos (by omega), if_pos (by omega), if_pos (by omega), if_neg (by omega)]
+  rfl
+
+theorem emb_init_eq (cc pi lc par : Nat) :
     EmbeddedSignalling.init modelExt (cc : Int) (pi : Int) (lc : Int) (par : Int) = ofI embObj (embInit cc pi lc par) := by
   unfold EmbeddedSignalling.init embInit
   have e15 : (15 : Int) = ((15 : Nat) : Int) := rfl
@@ -204,12 +213,22 @@ theorem emb_init_eq (cc pi lc par : Nat) (hpar : par < 512) :
                 bitsToNat_lt' _ 9 (by rw [sl_length _ _ _ (by rw [hg]; omega)])
               have hz2 := emb_as_bits cc piv lv _ none (by omega) hd hd2 hpar2
               rw [hz2]
+              simp only [bind, Except.bind, pure, Except.pure]
+              rw [if_neg (show ¬ bitsToNat (sl (qr1676.gen (natToBits 4 cc ++ natToBits 1 piv ++ natToBits 2 lv)) 7 16) ≥ 512 by omega)]
               rfl
             · have hp' : ¬ ((par : Int) ≤ 0) := by omega
-              have hz := emb_as_bits cc piv lv par none (by omega) hd hd2 hpar
               simp only [hp, hp', decide_false, if_false, Bool.false_eq_true]
-              rw [hz]
-              rfl
+              by_cases hpar : par < 512
+              · have hz := emb_as_bits cc piv lv par none (by omega) hd hd2 hpar
+                rw [hz]
+                simp only [bind, Except.bind, pure, Except.pure]
+                rw [if_neg (show ¬ par ≥ 512 by omega)]
+                rfl
+              · have hz := emb_as_bits_ovf cc piv lv par none (by omega) hd hd2 hpar
+                rw [hz]
+                simp only [bind, Except.bind, pure, Except.pure]
+                rw [if_pos (show par ≥ 512 by omega)]
+                rfl
       · have h3' : pi > 1 := by omega
         simp only [h1, h2, h3, h1', h2', h3', decide_true, decide_false, assert_true_bind, assert_false_bind, if_false, if_true, throw_bind]
         rfl
@@ -243,7 +262,7 @@ theorem emb_from_bits_eq (bits : Bits) : EmbeddedSignalling.from_bits modelExt b
       ba2int_of_length_pos _ (by rw [sl_length _ _ _ (by omega)]; omega),
       ba2int_of_length_pos _ (by rw [sl_length _ _ _ (by omega)]; omega)]
     simp only [ok_bind]
-    rw [emb_init_eq _ _ _ _ (bitsToNat_lt' _ 9 (by rw [sl_length _ _ _ (by omega)]))]
+    rw [emb_init_eq]
   · have hl : ((Py.len bits) == 16) = false := by
       simp only [len_eq, beq_eq_false_iff_ne, ne_eq]; omega
     rw [hl, assert_false_bind, if_pos (by simpa using h)]
